@@ -83,6 +83,19 @@ def _scalar(v):
     return isinstance(v, (int, float, str, bool)) or (isinstance(v, tuple) and not isinstance(v, Obj))
 
 
+class _OptSlot:
+    """view of the payload of a `Some(x)` stored in a cell: index 0 reads / writes x"""
+
+    def __init__(self, cell):
+        self.cell = cell
+
+    def __getitem__(self, i):
+        return self.cell.get()[1]
+
+    def __setitem__(self, i, v):
+        self.cell.set(some(v))
+
+
 class Deque(list):
     """a VecDeque whose ring buffer is laid out as two slices: elements [0, split) and [split, len).  Code that treats the two slices
     separately (as_slices / as_mut_slices) sees exactly this layout; make_contiguous() removes it."""
@@ -191,6 +204,8 @@ def deep_clone(v):
         return Deque([deep_clone(x) for x in v], v.split)
     if isinstance(v, list):
         return [deep_clone(x) for x in v]
+    if isinstance(v, tuple) and not isinstance(v, Obj) and any(isinstance(x, (dict, list, tuple)) for x in v):
+        return tuple(deep_clone(x) for x in v)
     return v
 
 
@@ -310,6 +325,19 @@ class Interp:
     # ------------------------------------------------------------ patterns
     def bind(self, p, v, env):
         k = p.get('k')
+        if isinstance(v, Cell) and k not in ('Bind', 'Wild'):
+            inner_ = v.get()
+            if _is_opt(inner_) and inner_ != NONE and not _scalar(inner_[1]):
+                v = inner_            # Some(container): the container itself is the reference
+            elif _is_opt(inner_) and k == 'TupleStruct':
+                # Some(scalar) behind a &mut: bind the payload as a cell into a one-slot box so that writes reach the option
+                if inner_ == NONE:
+                    v = inner_
+                else:
+                    box_ = _OptSlot(v)
+                    return self.bind(p['sub'][0], Cell(box_, 0), env) if (hir.pat_ctor(p) or '').endswith('Some') else False
+            else:
+                v = inner_
         if k == 'Bind':
             env[p['id']] = v
             if p.get('sub'):
@@ -531,6 +559,7 @@ class Interp:
                 raise NoEval('binary %s' % op)
         if k == 'Field':
             b = self.ev(e['e'], env)
+            b = b.get() if isinstance(b, Cell) else b
             if isinstance(b, (tuple, list)) and e['name'].isdigit() and int(e['name']) < len(b) and not _is_opt(b):
                 return b[int(e['name'])]
             if isinstance(b, dict) and '__struct__' in b and e['name'] in b:
@@ -538,6 +567,7 @@ class Interp:
             raise NoEval('field .%s' % e['name'])
         if k == 'Index':
             b = self.ev(e['e'], env)
+            b = b.get() if isinstance(b, Cell) else b
             rb = hir.range_bounds(e['i'])
             if rb is not None and isinstance(b, list):
                 lo = self.ev(rb[0], env) if rb[0] is not None else 0
@@ -679,6 +709,22 @@ class Interp:
             self.place_set(e['args'][0], b_, env)
             self.place_set(e['args'][1], a_, env)
             return None
+        if c.endswith('mem::take') and len(e['args']) == 1:
+            a_ = self.ev(e['args'][0], env)
+            a_ = a_.get() if isinstance(a_, Cell) else a_
+            if _is_opt(a_):
+                dflt_ = NONE
+            elif isinstance(a_, list):
+                dflt_ = []
+            elif isinstance(a_, dict) and '__struct__' not in a_:
+                dflt_ = {}
+            elif isinstance(a_, int) and not isinstance(a_, bool):
+                dflt_ = 0
+            else:
+                raise NoEval('mem::take of %r' % (a_,))
+            old_ = deep_clone(a_) if isinstance(a_, (list, dict)) else a_
+            self.place_set(e['args'][0], dflt_, env)
+            return old_
         if c.endswith('mem::replace') and len(e['args']) == 2:
             a_ = self.ev(e['args'][0], env)
             a_ = a_.get() if isinstance(a_, Cell) else a_
@@ -827,6 +873,36 @@ class Interp:
                 return [Cell(recv, i_) for i_ in range(len(recv))]
             return recv
         if _is_opt(recv):
+            if nm == 'take' and not args:
+                self.place_set(e['recv'], NONE, env)
+                return recv
+            if nm == 'replace' and len(args) == 1:
+                self.place_set(e['recv'], some(A()), env)
+                return recv
+            if nm in ('as_ref', 'as_mut', 'as_deref', 'as_deref_mut', 'copied', 'cloned') and not args:
+                return recv
+            if nm == 'and_then' and len(args) == 1:
+                return A()(recv[1]) if recv != NONE else NONE
+            if nm == 'is_some_and' and len(args) == 1:
+                return bool(A()(recv[1])) if recv != NONE else False
+            if nm == 'filter' and len(args) == 1:
+                return recv if (recv != NONE and A()(recv[1])) else NONE
+            if nm == 'unwrap_or_else' and len(args) == 1:
+                if recv != NONE:
+                    return recv[1]
+                f_ = A()
+                if callable(f_):
+                    return f_()
+                raise NoEval('unwrap_or_else with %r' % (f_,))
+            if nm == 'unwrap_or_default' and not args:
+                if recv != NONE:
+                    return recv[1]
+                raise NoEval('unwrap_or_default on None')
+            if nm in ('ok_or', 'ok_or_else') and len(args) == 1:
+                if recv != NONE:
+                    return ('Ok', recv[1])
+                a_ = A()
+                return ('Err', a_() if (nm == 'ok_or_else' and callable(a_)) else a_)
             if nm in ('unwrap', 'expect'):
                 if recv == NONE:
                     raise Panics('unwrap on None (the fragment would panic on this input)')
@@ -852,7 +928,9 @@ class Interp:
         if isinstance(recv, dict):
             if nm in ('get', 'get_mut'):
                 k_ = _hashable(A())
-                return some(recv[k_]) if k_ in recv else NONE
+                if k_ not in recv:
+                    return NONE
+                return some(Cell(recv, k_)) if (nm == 'get_mut' and (_scalar(recv[k_]) or _is_opt(recv[k_]))) else some(recv[k_])
             if nm == 'contains_key':
                 return _hashable(A()) in recv
             if nm == 'insert':
@@ -893,7 +971,26 @@ class Interp:
                 return out
             if nm == 'flat_map':
                 f = A()
-                return [y for x in L for y in f(x)]
+                out = []
+                for x in L:
+                    r = f(x)
+                    if _is_opt(r):
+                        if r != NONE:
+                            out.append(r[1])
+                    else:
+                        out.extend(list(r))
+                return out
+            if nm == 'flatten' and not args:
+                out = []
+                for x in L:
+                    if _is_opt(x):
+                        if x != NONE:
+                            out.append(x[1])
+                    elif isinstance(x, (list, tuple)):
+                        out.extend(list(x))
+                    else:
+                        raise NoEval('flatten of %r' % (x,))
+                return out
             if nm == 'enumerate':
                 return [(i, x) for i, x in enumerate(L)]
             if nm == 'zip':
@@ -933,9 +1030,13 @@ class Interp:
                 if not L:
                     return NONE
                 return some({'first': L[0], 'next': L[0], 'last': L[-1], 'max': max(L), 'min': min(L)}[nm])
-            if nm == 'get':
+            if nm in ('get', 'get_mut'):
                 i = A()
-                return some(L[i]) if isinstance(i, int) and 0 <= i < len(L) else NONE
+                if not (isinstance(i, int) and not isinstance(i, bool) and 0 <= i < len(L)):
+                    return NONE
+                if nm == 'get_mut' and isinstance(recv, list) and (_scalar(L[i]) or _is_opt(L[i])):
+                    return some(Cell(recv, i))
+                return some(L[i])
             if nm == 'sum':
                 return sum(L)
             if nm in ('make_contiguous', 'as_mut_slice') and isinstance(recv, list) and not args:
@@ -1175,13 +1276,31 @@ class Interp:
             i = l['res']['id']
             env[i] = v if op is None else op(env[i], v)
             return
+        if deref_ and l.get('k') in ('MethodCall', 'Call'):
+            c_ = self.ev(l, env)
+            if isinstance(c_, Cell):
+                c_.set(v if op is None else op(c_.get(), v))
+                return
+            if isinstance(c_, dict) and isinstance(v, dict) and op is None:
+                nv_ = dict(v)
+                c_.clear()
+                c_.update(nv_)
+                return
+            raise NoEval('assignment through %s' % hir.pp(l0)[:30])
         if l.get('k') == 'Field':
             b = self.ev(l['e'], env)
+            b = b.get() if isinstance(b, Cell) else b
             if isinstance(b, dict) and '__struct__' in b and l['name'] in b:
                 b[l['name']] = v if op is None else op(b[l['name']], v)
                 return
             if isinstance(b, list) and l['name'].isdigit() and int(l['name']) < len(b):
                 b[int(l['name'])] = v if op is None else op(b[int(l['name'])], v)
+                return
+            bc_ = self.ev(l['e'], env)
+            if isinstance(bc_, Cell) and isinstance(bc_.get(), tuple) and l['name'].isdigit() and int(l['name']) < len(bc_.get()):
+                t_ = list(bc_.get())
+                t_[int(l['name'])] = v if op is None else op(t_[int(l['name'])], v)
+                bc_.set(tuple(t_))
                 return
         if l.get('k') == 'Index':
             b = self.ev(l['e'], env)
@@ -1189,6 +1308,8 @@ class Interp:
             if isinstance(b, list) and isinstance(i, int) and 0 <= i < len(b):
                 b[i] = v if op is None else op(b[i], v)
                 return
+            if isinstance(b, list) and isinstance(i, int) and not isinstance(i, bool):
+                raise Panics('index %d out of bounds (len %d) in an assignment' % (i, len(b)))
             if isinstance(b, dict):
                 b[i] = v if op is None else op(b[i], v)
                 return
